@@ -681,8 +681,8 @@ func (it *Interp) rangeInit(fr *frame, in *ssa.Range) Value {
 		}
 		return iv
 	case *StrV:
-		if x.b != nil || x.opaque {
-			it.unsupported("range over symbolic string")
+		if x.opaque {
+			it.unsupported("range over opaque string")
 		}
 		return &iterV{str: x}
 	}
@@ -693,6 +693,18 @@ func (it *Interp) rangeInit(fr *frame, in *ssa.Range) Value {
 func (it *Interp) rangeNext(fr *frame, in *ssa.Next) Value {
 	iv := fr.get(in.Iter).(*iterV)
 	tt := it.tt
+	if in.IsString && iv.str.b != nil {
+		if iv.pos >= len(iv.str.b) {
+			return TupleV{tt.fls, tt.Const(64, 0), tt.Const(32, 0)}
+		}
+		b := iv.str.b[iv.pos]
+		if !it.ex.branch(tt.Ult(b, tt.Const(8, 0x80)), true) {
+			it.unsupported("range over symbolic string with non-ASCII byte")
+		}
+		p := iv.pos
+		iv.pos++
+		return TupleV{tt.tru, tt.Const(64, uint64(p)), tt.ZExt(b, 32)}
+	}
 	if in.IsString {
 		if iv.pos >= len(iv.str.s) {
 			return TupleV{tt.fls, tt.Const(64, 0), tt.Const(32, 0)}
